@@ -358,7 +358,32 @@ def _variant(rng, tmpl, j, idx):
     return rng.choice(same)
 
 
+RECURSIVE_XSD = ('<xs:schema xmlns:xs="http://www.w3.org/2001/XMLSchema"><xs:complexType name="S"><xs:sequence>'
+                 '<xs:element name="s" type="S" minOccurs="0" maxOccurs="unbounded"><xs:unique name="U"><xs:selector xpath="e"/>'
+                 '<xs:field xpath="@n"/></xs:unique></xs:element>'
+                 '<xs:element name="e" minOccurs="0" maxOccurs="unbounded"><xs:complexType><xs:attribute name="n" type="xs:int"/>'
+                 '</xs:complexType></xs:element></xs:sequence></xs:complexType><xs:element name="root" type="S"/></xs:schema>')
+RECURSIVE_DOCS = ['<root><s><s><e n="5"/></s><e n="1"/><e n="1"/></s></root>',      # duplicates after a nested scope instance
+                  '<root><s><e n="1"/><e n="1"/><s><e n="5"/></s></s></root>']      # duplicates before it (detected)
+
+
+def check_recursive_scope(ctx):
+    """F-C08b: a unique constraint on a recursively nested element; the inner scope instance shares the counter"""
+    import xmlschema
+    for version, cls in (('1.0', xmlschema.XMLSchema10), ('1.1', xmlschema.XMLSchema11)):
+        s = cls(RECURSIVE_XSD)
+        for d in RECURSIVE_DOCS:
+            ctx.count(('recursive', version, d), nontrivial=True)
+            if s.is_valid(d):
+                if d == RECURSIVE_DOCS[0]:
+                    ctx.known_finding('F-C08b')
+                else:
+                    ctx.violation('%s is accepted although two selected nodes of U have the same field value (XSD %s)' % (d, version),
+                                  {'kind': 'recursive', 'xml': d, 'xsd': RECURSIVE_XSD, 'version': version})
+
+
 def run(ctx):
+    check_recursive_scope(ctx)
     cases = gen(ctx)
     ctx.rule = ('tables of field tuples for key / unique / keyref in 1-3 scope instances: exhaustive 2-3 row tables over '
                 '{absent, two lexical forms of one value, another value} x 2 fields (%s), seeded random templates '
